@@ -284,3 +284,43 @@ Definition graph_topo (g : graph) : bool :=
   forallb (fun p => forallb (fun j => j <? fst p) (snd p)) g.
 Definition edge (g : graph) (a b : N) : Prop :=
   exists succs, In (a, succs) g /\ In b succs.
+
+(* ---- tail positions (Gen/TailPos.v, read from analyze.rs) ----
+   A `tailstrict` call keeps no Call frame only where the analyzer says the
+   call "can be tailstrict".  The specification: the flag is [TTrue] for a
+   function body, passed through ([TPass]) to then / else of `if`, to the body
+   of `local` and to the body of `assert`, the parameter of the analyzer at
+   its root ([TRoot]) — and [TFalse] everywhere else. *)
+Inductive tailflag := TFalse | TTrue | TPass | TRoot.
+
+Definition tailflag_eqb (a b : tailflag) : bool :=
+  match a, b with
+  | TFalse, TFalse | TTrue, TTrue | TPass, TPass | TRoot, TRoot => true
+  | _, _ => false
+  end.
+
+Definition tail_site := (string * string * tailflag)%type.
+
+Definition tail_site_eqb (a b : tail_site) : bool :=
+  let '(c1, s1, f1) := a in let '(c2, s2, f2) := b in
+  (String.eqb c1 c2 && String.eqb s1 s2 && tailflag_eqb f1 f2)%bool.
+
+Fixpoint tail_sites_eqb (l1 l2 : list tail_site) : bool :=
+  match l1, l2 with
+  | [], [] => true
+  | a :: r1, b :: r2 => tail_site_eqb a b && tail_sites_eqb r1 r2
+  | _, _ => false
+  end.
+
+Definition tail_sites_spec : list tail_site :=
+  [("fn analyze_expr", "root_expr_ast", TRoot);
+   ("Local", "inner_ast", TPass);
+   ("If", "then_body_ast", TPass);
+   ("If", "e", TPass);
+   ("Assert", "inner_ast", TPass);
+   ("fn analyze_function", "body_ast", TTrue)]%string.
+
+Definition tail_sites_ok (sites : list tail_site) : bool :=
+  tail_sites_eqb
+    (filter (fun s => negb (tailflag_eqb (snd s) TFalse)) sites) tail_sites_spec
+  && existsb (fun s => tail_site_eqb s ("If", "cond_ast", TFalse)%string) sites.
